@@ -1,4 +1,5 @@
 import MudProof.Properties.C17
+import MudProof.Properties.C16
 open Mud.C17
 #print axioms indicator_01
 #print axioms indicator_total
@@ -12,3 +13,5 @@ open Mud.C17
 #print axioms counts_eq_card
 #print axioms hopHist_total
 #print axioms driverRow_length
+#print axioms Mud.C16.simulate_final_indep_te
+#print axioms Mud.C16.loopGo_last_is_final
